@@ -220,6 +220,11 @@ func RepoIDsFromProto(p *webserverv1.RepoIds) (*RepoIDs, error) {
 	if err != nil {
 		return nil, err
 	}
+	// UnmarshalBinary accepts structurally broken bitmaps (e.g. a run container
+	// that declares zero runs) on which later operations panic.
+	if err := bm.Validate(); err != nil {
+		return nil, err
+	}
 
 	return &RepoIDs{
 		Repos: bm,
@@ -240,6 +245,9 @@ func BranchReposFromProto(p *webserverv1.BranchRepos) (BranchRepos, error) {
 	bm := roaring.NewBitmap()
 	err := bm.UnmarshalBinary(p.GetRepos())
 	if err != nil {
+		return BranchRepos{}, err
+	}
+	if err := bm.Validate(); err != nil {
 		return BranchRepos{}, err
 	}
 	return BranchRepos{
